@@ -29,6 +29,9 @@ func checkC13(c *Ctx) {
 	c.RuleB("B.term", reach, chain, nil)
 	c.RuleT("", inScope, sinkKindsAll)
 	c.ruleWidthDecode("T8", inScope)
+	c.ruleArrayConversion("T9", inScope)
+	c.ruleDivisor("T10", inScope)
+	c.ruleNilOnError("N2.onerror", inScope)
 	c.ruleAssert("B.assert", inScope)
 	c.ruleLockPairing("R.lock", inScope)
 	c.ruleHashAvailable("B.hash", inScope)
@@ -53,6 +56,9 @@ func checkC14(c *Ctx) {
 	c.RuleB("B.term", nil, nil, nil)
 	c.RuleT("", inScope, sinkKindsAll)
 	c.ruleWidthDecode("T8", inScope)
+	c.ruleArrayConversion("T9", inScope)
+	c.ruleDivisor("T10", inScope)
+	c.ruleNilOnError("N2.onerror", inScope)
 	c.ruleAssert("B.assert", inScope)
 	c.ruleLockPairing("R.lock", inScope)
 	c.ruleHashAvailable("B.hash", inScope)
